@@ -1,6 +1,8 @@
 import ConserveModel.Basic
 import ConserveModel.Apath
 import ConserveModel.ApathSpec
+import ConserveModel.Driver.Blake
+import ConserveModel.Driver.Ops
 /-
 cvmodel: line-protocol driver for the executable model.
 One request per line; the answer is zero or more lines followed by a line ".".
@@ -36,16 +38,25 @@ def handle (toks : List String) : List String :=
     | _, _ => ["bad-op"]
   | _ => ["bad-op"]
 
-partial def loop (h : IO.FS.Stream) (out : IO.FS.Stream) : IO Unit := do
+/-- Stateless handlers, tried in order. -/
+def handleStateless (toks : List String) : List String :=
+  match handleBlake toks with
+  | some r => r
+  | none => handle toks
+
+partial def loop (h : IO.FS.Stream) (out : IO.FS.Stream) (st : Conserve.IO.DState) : IO Unit := do
   let line ← h.getLine
   if line.isEmpty then return ()
   let toks := (line.trimAscii.toString.splitOn " ").filter (· ≠ "")
-  for l in handle toks do
+  let (st', lines) := match Conserve.IO.step st toks with
+    | some r => r
+    | none => (st, handleStateless toks)
+  for l in lines do
     out.putStrLn l
   out.putStrLn "."
-  loop h out
+  loop h out st'
 
 def main : IO Unit := do
   let out ← IO.getStdout
-  loop (← IO.getStdin) out
+  loop (← IO.getStdin) out {}
   out.flush
